@@ -249,6 +249,20 @@ func (x *Exec) applySpec(s *State, spec *FuncSpec, evName string, vars map[strin
 	for _, a := range spec.Assigns {
 		x.havocAssign(s, env, a)
 	}
+	if !spec.HasAssigns && !spec.Pure && x.P.fns[spec.Name] != nil {
+		// A contract of a real function without an assigns clause says nothing about its frame:
+		// everything may have changed (sound default). Interface and field contracts without a
+		// clause keep the documented assumption A8 (no effect on the modelled heap).
+		for n := range s.heap {
+			sort := x.D.sorts["H0."+n]
+			if sort == "" {
+				sort = x.D.sorts[s.heap[n]]
+			}
+			s.heap[n] = x.D.fresh("H."+n, sort)
+		}
+		x.clearCache(s)
+		x.note("call of " + spec.Name + " in " + fnName(x.fn) + ": the callee's contract has no assigns clause, whole heap havocked at the call")
+	}
 	var res Val
 	if spec.Pure && sig.Results().Len() > 0 {
 		res = x.pureResult(s, spec, fv, recv, sig, args)
